@@ -1,5 +1,3 @@
-//go:build verif
-
 package checks
 
 import (
@@ -52,7 +50,7 @@ func c08SetConfig(value string, viaEnv bool) {
 			common.Fatalf("flag set: %v", err)
 		}
 	}
-	analyzer.VerifResetConfig()
+	resetConfig()
 }
 
 func C08(tier common.Tier) int {
